@@ -285,6 +285,35 @@ func ruleSeekTrial(r *Report) {
 			r.OK(rule, key, sites[0].Pos(), "header parse failures carry "+types.TypeString(found, nil))
 		}
 	}
+	// a candidate whose header parses (its CRC can be made to match: RecordIO bytes stored inside a record) but whose
+	// payload does not decompress is no record either — unless the decompression failure travels typed as well, SeekNext
+	// gives up on it (known finding F-SEEK-1: not repaired, because treating it as "no record here" would also make
+	// SeekNext pass silently over a genuinely damaged record)
+	if rn := r.P.Func("recordio.MMapReader.ReadNextAt"); rn != nil {
+		dkey := rule + "/recordio.MMapReader.ReadNextAt/decompress-failure-typed"
+		typed := false
+		for _, s := range CallsIn(rn, Suffix("CompressionI.DecompressWithBuf", "CompressionI.Decompress")) {
+			al := errAliases(s)
+			eachInstr(rn, func(t Site) {
+				st, ok := t.Instr.(*ssa.Store)
+				if !ok || !al[st.Val] {
+					return
+				}
+				if fa, ok := st.Addr.(*ssa.FieldAddr); ok {
+					if pt, ok := fa.X.Type().(*types.Pointer); ok {
+						if nt, ok := pt.Elem().(*types.Named); ok && marker != nil && types.Identical(nt, marker) {
+							typed = true
+						}
+					}
+				}
+			})
+		}
+		if typed {
+			r.OK(rule, dkey, rn.Pos(), "decompression failures of a trial read are typed like header failures")
+		} else {
+			r.Bad(rule, dkey, rn.Pos(), "a decompression failure is returned as a plain error: in a compressed file a payload that contains the marker and a checksummed record header (14 bytes, e.g. RecordIO bytes stored inside a record) makes SeekNext from inside that record fail with \"snappy: corrupt input\" instead of returning the next record")
+		}
+	}
 	fn := r.NeedFunc(rule, "recordio.MMapReader.SeekNext")
 	if fn == nil {
 		return
@@ -447,5 +476,164 @@ func ruleSkipReadSiblings(r *Report) {
 		} else {
 			r.OK(rule, key, sk.Pos(), fmt.Sprintf("same header-failure classification as %s (%d sentinel(s))", pair[0], len(cr)))
 		}
+	}
+}
+
+// R-alloc-bounded: SeekNext parses a header wherever it sees the marker bytes, also inside a payload. The sizes of such
+// a "header" (its CRC can be made to match, e.g. RecordIO bytes stored inside a record) must not be believed before
+// they were compared with what the file can hold: allocating 2^50 bytes panics (makeslice) and 2^44 kills the process
+// (out of memory) — from a read.
+func ruleAllocBounded(r *Report) {
+	const rule = "alloc-bounded"
+	r.Rule(rule, 1, "in MMapReader.ReadNextAt (v4) every allocation that is sized from the parsed record header happens only after a successful comparison of those sizes with the size of the mapped file")
+	p := r.P
+	fn := r.NeedFunc(rule, "recordio.MMapReader.ReadNextAt")
+	if fn == nil {
+		return
+	}
+	key := rule + "/recordio.MMapReader.ReadNextAt"
+	hdr := CallsIn(fn, Keys("recordio.readRecordHeaderV4"))
+	if len(hdr) == 0 {
+		r.Missing(rule, key, "no v4 header parse in ReadNextAt")
+		return
+	}
+	fromHeader := func(v ssa.Value) bool {
+		return valueDependsOn(v, func(x ssa.Value) bool {
+			ex, ok := x.(*ssa.Extract)
+			return ok && ex.Tuple == hdr[0].Instr.(ssa.Value) && (ex.Index == 0 || ex.Index == 1)
+		})
+	}
+	// allocations sized from the header
+	var allocs []Site
+	eachInstr(fn, func(s Site) {
+		c, ok := s.Instr.(*ssa.Call)
+		if !ok {
+			return
+		}
+		k := CalleeKey(c)
+		if strings.HasSuffix(k, "Pool.Get") || k == "recordio.allocateRecordBufferPooled" {
+			for _, a := range c.Call.Args {
+				if fromHeader(a) {
+					allocs = append(allocs, s)
+					return
+				}
+			}
+		}
+	})
+	if len(allocs) == 0 {
+		r.Missing(rule, key, "no allocation sized from the header found")
+		return
+	}
+	// the bound check: a call of a module function (error result) that receives header sizes and (transitively)
+	// consults the mapped length, or an inline comparison with it
+	var checks []Site
+	eachInstr(fn, func(s Site) {
+		c, ok := s.Instr.(*ssa.Call)
+		if !ok {
+			return
+		}
+		sc := c.Call.StaticCallee()
+		if sc == nil || !inModule(sc) || CalleeKey(c) == "recordio.readRecordHeaderV4" || CalleeKey(c) == "recordio.allocateRecordBufferPooled" {
+			return
+		}
+		if _, hasErr, _ := errResults(c); !hasErr {
+			return
+		}
+		usesSizes := false
+		for _, a := range c.Call.Args {
+			if fromHeader(a) {
+				usesSizes = true
+			}
+		}
+		if !usesSizes {
+			return
+		}
+		for _, g := range moduleReach(p, []*ssa.Function{sc}) {
+			if len(CallsIn(g, Suffix("ReaderAt.Len", "MMapReader.Size"))) > 0 {
+				checks = append(checks, s)
+				return
+			}
+		}
+	})
+	if len(checks) == 0 {
+		r.Bad(rule, key, allocs[0].Pos(), "buffers are allocated with the sizes of the parsed header before anything compares them with the file: a payload that contains the marker and a checksummed header claiming 2^50 bytes makes SeekNext (which probes inside payloads) panic with makeslice: len out of range, 2^44 dies with out of memory")
+		return
+	}
+	o := &order{r, p}
+	o.OnlyAfterSuccess(rule, key, fn, "the size check against the file", checks, "allocating from header sizes", allocs, nil)
+}
+
+// R-header-sizes-checked: the two sizes of a v4 header are related by what the writer can produce: in a file without
+// compression the compressed size is always 0, and with compression no supported codec expands a payload beyond a fixed
+// ratio. A header that says otherwise is no header. Without the check an altered compressed-size byte (0x00 → 0x80|x in
+// an uncompressed file) swallows the stored checksum while staying a shortest-form varint, the "checksum" is then read
+// from the payload, and a payload that starts with the right five bytes makes the altered header pass.
+func ruleHeaderSizesChecked(r *Report) {
+	const rule = "header-sizes-checked"
+	r.Rule(rule, 3, "each v4 consumer (ReadNext, SkipNext, ReadNextAt) passes both parsed sizes to one plausibility check (compressed size 0 without compression; bounded expansion with it) on the success edge of the header parse, before it allocates, reads or seeks")
+	p := r.P
+	o := &order{r, p}
+	for _, k := range []string{"recordio.FileReader.ReadNext", "recordio.FileReader.SkipNext", "recordio.MMapReader.ReadNextAt"} {
+		fn := r.NeedFunc(rule, k)
+		if fn == nil {
+			continue
+		}
+		key := rule + "/" + k
+		hdr := CallsIn(fn, Keys("recordio.readRecordHeaderV4"))
+		if len(hdr) == 0 {
+			r.Missing(rule, key, "no v4 header parse")
+			continue
+		}
+		sizeArg := func(v ssa.Value, idx int) bool {
+			return valueDependsOn(v, func(x ssa.Value) bool {
+				ex, ok := x.(*ssa.Extract)
+				return ok && ex.Tuple == hdr[0].Instr.(ssa.Value) && ex.Index == idx
+			})
+		}
+		var checks []Site
+		eachInstr(fn, func(s Site) {
+			c, ok := s.Instr.(*ssa.Call)
+			if !ok {
+				return
+			}
+			sc := c.Call.StaticCallee()
+			if sc == nil || !inModule(sc) || CalleeKey(c) == "recordio.allocateRecordBufferPooled" {
+				return
+			}
+			if _, hasErr, _ := errResults(c); !hasErr {
+				return
+			}
+			u, cz := false, false
+			for _, a := range c.Call.Args {
+				if sizeArg(a, 0) {
+					u = true
+				}
+				if sizeArg(a, 1) {
+					cz = true
+				}
+			}
+			if u && cz {
+				checks = append(checks, s)
+			}
+		})
+		// what must come after the check: allocations, payload reads, seeks
+		var uses []Site
+		eachInstr(fn, func(s Site) {
+			c, ok := s.Instr.(*ssa.Call)
+			if !ok {
+				return
+			}
+			ck := CalleeKey(c)
+			if ck == "recordio.allocateRecordBufferPooled" || ck == "os.File.Seek" || ck == "io.ReadFull" {
+				if reachableFromSite(hdr[0], s) {
+					uses = append(uses, s)
+				}
+			}
+		})
+		if len(checks) == 0 {
+			r.Bad(rule, key, hdr[0].Pos(), "the parsed sizes are used without a plausibility check: in an uncompressed file the compressed-size byte 0x00 → 0x80|x swallows the stored checksum (still a shortest-form varint), the checksum is read from the payload, and a payload built for it makes both readers return bytes that start 5 bytes into the payload and end with 5 bytes of the next header")
+			continue
+		}
+		o.OnlyAfterSuccess(rule, key, fn, "the size plausibility check", checks, "using the sizes", uses, nil)
 	}
 }
